@@ -100,6 +100,27 @@ func (t *FnTrans) binop(op token.Token, a, b Val) Val {
 	if w, signed, ok := intInfo(ty); ok {
 		return t.intBinop(op, a, b, w, signed, rt)
 	}
+	if _, ok := isFloat(ty); ok && t.mode.isReal() {
+		bt := types.Typ[types.Bool]
+		switch op {
+		case token.ADD:
+			return scalar(ty, sx("+", a.S, b.S))
+		case token.SUB:
+			return scalar(ty, sx("-", a.S, b.S))
+		case token.MUL:
+			return scalar(ty, sx("*", a.S, b.S))
+		case token.QUO:
+			return scalar(ty, sx("/", a.S, b.S))
+		case token.LSS:
+			return scalar(bt, sx("<", a.S, b.S))
+		case token.LEQ:
+			return scalar(bt, sx("<=", a.S, b.S))
+		case token.GTR:
+			return scalar(bt, sx(">", a.S, b.S))
+		case token.GEQ:
+			return scalar(bt, sx(">=", a.S, b.S))
+		}
+	}
 	if w, ok := isFloat(ty); ok {
 		_ = w
 		switch op {
@@ -175,7 +196,7 @@ func (t *FnTrans) addIdx(a, b string) string {
 	if y, ok := t.smtConstInt(b); ok && y == 0 {
 		return a
 	}
-	if t.mode == ModeInt {
+	if t.mode.isInt() {
 		return sx("+", a, b)
 	}
 	return sx("bvadd", a, b)
@@ -189,7 +210,7 @@ func (t *FnTrans) subIdx(a, b string) string {
 			return a
 		}
 	}
-	if t.mode == ModeInt {
+	if t.mode.isInt() {
 		return sx("-", a, b)
 	}
 	return sx("bvsub", a, b)
@@ -238,7 +259,7 @@ func (t *FnTrans) constBinop(op token.Token, a, b Val) Val {
 
 func (t *FnTrans) intBinop(op token.Token, a, b Val, w int, signed bool, rt types.Type) Val {
 	bt := types.Typ[types.Bool]
-	if t.mode == ModeBV {
+	if t.mode.isBV() {
 		bin := func(s, u string) string {
 			if signed {
 				return sx(s, a.S, b.S)
@@ -370,6 +391,9 @@ func smtIntLit(s string) (*big.Int, bool) {
 func (t *FnTrans) valEq(a, b Val) string {
 	if a.K == VScalar && b.K == VScalar {
 		if _, ok := isFloat(a.T); ok {
+			if t.mode.isReal() {
+				return eq(a.S, b.S)
+			}
 			return sx("fp.eq", a.S, b.S)
 		}
 		return eq(a.S, b.S)
@@ -419,16 +443,19 @@ func (t *FnTrans) unop(op token.Token, a Val) Val {
 		return scalar(a.T, not(a.S))
 	case token.SUB:
 		if w, s, ok := intInfo(a.T); ok {
-			if t.mode == ModeBV {
+			if t.mode.isBV() {
 				return scalar(a.T, sx("bvneg", a.S))
 			}
 			return scalar(a.T, wrapInt(sx("-", a.S), w, s))
 		}
 		if _, ok := isFloat(a.T); ok {
+			if t.mode.isReal() {
+				return scalar(a.T, sx("-", a.S))
+			}
 			return scalar(a.T, sx("fp.neg", a.S))
 		}
 	case token.XOR:
-		if _, _, ok := intInfo(a.T); ok && t.mode == ModeBV {
+		if _, _, ok := intInfo(a.T); ok && t.mode.isBV() {
 			return scalar(a.T, sx("bvnot", a.S))
 		}
 	case token.ADD:
@@ -478,7 +505,7 @@ func (t *FnTrans) convert(a Val, to types.Type) Val {
 	}
 	switch {
 	case fromInt && toInt:
-		if t.mode == ModeInt {
+		if t.mode.isInt() {
 			if tw > fw && fs == ts || (!fs && ts && tw > fw) || (fw == tw && fs == ts) {
 				return scalar(to, a.S)
 			}
@@ -500,7 +527,10 @@ func (t *FnTrans) convert(a Val, to types.Type) Val {
 		if tfw == 32 {
 			fpS = "8 24"
 		}
-		if t.mode == ModeInt {
+		if t.mode.isReal() {
+			return scalar(to, sx("to_real", a.S))
+		}
+		if t.mode.isInt() {
 			return scalar(to, sx("(_ to_fp "+fpS+")", "RNE", sx("to_real", a.S)))
 		}
 		if fs {
@@ -508,7 +538,12 @@ func (t *FnTrans) convert(a Val, to types.Type) Val {
 		}
 		return scalar(to, sx("(_ to_fp_unsigned "+fpS+")", "RNE", a.S))
 	case fromFloat && toInt:
-		if t.mode == ModeInt {
+		if t.mode.isReal() {
+			// truncation toward zero, then wrapped into the target type
+			tr := ite(sx(">=", a.S, "0.0"), sx("to_int", a.S), sx("-", sx("to_int", sx("-", a.S))))
+			return scalar(to, wrapInt(tr, tw, ts))
+		}
+		if t.mode.isInt() {
 			t.note("float to int conversion in int mode: abstracted")
 			return unknown(to)
 		}
@@ -519,7 +554,7 @@ func (t *FnTrans) convert(a Val, to types.Type) Val {
 		}
 		return scalar(to, sx(fmt.Sprintf("(_ fp.to_ubv %d)", tw), "RTZ", a.S))
 	case fromFloat && toFloat:
-		if ffw == tfw {
+		if ffw == tfw || t.mode.isReal() {
 			return scalar(to, a.S)
 		}
 		fpS := "11 53"
